@@ -587,6 +587,12 @@ func (fs factSet) holdsNonEmpty(x *Term) bool {
 	return fs.lenLowerBound(x, foldInt) >= 1
 }
 
+// holdsEmpty: len(x) == 0 is implied (any spelling: == 0, < 1, !(0 < len), <= 0).
+func (fs factSet) holdsEmpty(x *Term) bool {
+	l := tLen(x)
+	return fs.has(Fact{tEq(l, tInt(0)), true}) || fs.has(Fact{tLt(l, tInt(1)), true}) || fs.has(Fact{tLt(tInt(0), l), false}) || fs.has(Fact{tLe(l, tInt(0)), true}) || fs.has(Fact{tLe(tInt(1), l), false})
+}
+
 // lenLowerBound: the largest K such that the facts imply len(x) >= K; fold
 // evaluates integer terms that are constants in this context.
 func (fs factSet) lenLowerBound(x *Term, fold func(*Term) (int64, bool)) int64 {
